@@ -258,7 +258,10 @@ func ExtractWirePrograms(p *Program) map[string]*WireProg {
 				side := coderSide(sig)
 				if side == "" {
 					if !bodyTouchesCoder(pkg.TypesInfo, fd.Body) && !callsHashAllHelper(pkg, fd.Body) {
-						continue
+						if !delegatesToHashHelper(pkg, fd) {
+							continue
+						}
+						delegatingDecl[fd] = true
 					}
 					side = "hash"
 				}
@@ -491,7 +494,7 @@ func (w *wireWalker) involvesCoder(n ast.Node) bool {
 					return false
 				}
 				if fn, _ := typeutil.Callee(w.info, c).(*types.Func); fn != nil && w.pkg != nil {
-					if inner, _ := w.hashAllHelper(fn); inner != nil {
+					if inner, _ := w.hashAllHelperAny(fn, w.prog != nil && delegatingDecl[w.prog.Decl]); inner != nil {
 						found = true
 						return false
 					}
@@ -1336,7 +1339,16 @@ func (w *wireWalker) call(c *ast.CallExpr, lhs string) []Op {
 		}
 		// an unexported helper of this package whose whole body is "return hashAll(…)": the call is that hash, with
 		// the helper's receiver and parameters standing for the arguments
-		if inner, fd := w.hashAllHelper(fn); inner != nil {
+		inner, fd := w.hashAllHelper(fn)
+		if inner == nil {
+			// an EXPORTED hash method applied to a value that is itself being hashed here ("hash of a hash":
+			// txn.SiafundOutputID(i).ClaimOutputID()) is part of this preimage program; applied to a plain value it
+			// stays a call (validators that merely derive an ID are not hash programs)
+			if sel, ok := stripParens(c.Fun).(*ast.SelectorExpr); ok && sig.Recv() != nil && (w.involvesCoder(sel.X) || (w.prog != nil && delegatingDecl[w.prog.Decl])) {
+				inner, fd = w.hashAllHelperAny(fn, true)
+			}
+		}
+		if inner != nil {
 			if fd.Recv != nil && len(fd.Recv.List) == 1 && len(fd.Recv.List[0].Names) == 1 {
 				if sel, ok := stripParens(c.Fun).(*ast.SelectorExpr); ok {
 					if o := w.info.Defs[fd.Recv.List[0].Names[0]]; o != nil {
@@ -2274,7 +2286,11 @@ func (w *wireWalker) fieldTable(e ast.Expr) []string {
 // hashAllHelper: fn is an unexported function or method of the walked package whose body is exactly
 // "return hashAll(args…)": that call and the declaration.
 func (w *wireWalker) hashAllHelper(fn *types.Func) (*ast.CallExpr, *ast.FuncDecl) {
-	if fn == nil || fn.Pkg() == nil || fn.Pkg() != w.pkg.Types || fn.Exported() {
+	return w.hashAllHelperAny(fn, false)
+}
+
+func (w *wireWalker) hashAllHelperAny(fn *types.Func, exportedToo bool) (*ast.CallExpr, *ast.FuncDecl) {
+	if fn == nil || fn.Pkg() == nil || fn.Pkg() != w.pkg.Types || (fn.Exported() && !exportedToo) {
 		return nil, nil
 	}
 	for _, f := range w.pkg.Syntax {
@@ -2318,4 +2334,36 @@ func callsHashAllHelper(pkg *packages.Package, body ast.Node) bool {
 		return !found
 	})
 	return found
+}
+
+// delegatingDecl: functions whose whole body is "return <hash method>(…)" of an exported hash method of the same
+// package (Transaction.SiafundClaimOutputID = SiafundOutputID(i).ClaimOutputID()): their program is that method's.
+var delegatingDecl = map[*ast.FuncDecl]bool{}
+
+func delegatesToHashHelper(pkg *packages.Package, fd *ast.FuncDecl) bool {
+	if fd.Body == nil || len(fd.Body.List) != 1 {
+		return false
+	}
+	ret, ok := fd.Body.List[0].(*ast.ReturnStmt)
+	if !ok || len(ret.Results) != 1 {
+		return false
+	}
+	e := stripParens(ret.Results[0])
+	// through a conversion
+	if c, ok := e.(*ast.CallExpr); ok && len(c.Args) == 1 {
+		if tv, isT := pkg.TypesInfo.Types[c.Fun]; isT && tv.IsType() {
+			e = stripParens(c.Args[0])
+		}
+	}
+	c, ok := e.(*ast.CallExpr)
+	if !ok {
+		return false
+	}
+	fn, _ := typeutil.Callee(pkg.TypesInfo, c).(*types.Func)
+	if fn == nil {
+		return false
+	}
+	w := &wireWalker{pkg: pkg, info: pkg.TypesInfo}
+	inner, _ := w.hashAllHelperAny(fn, true)
+	return inner != nil
 }
